@@ -9,6 +9,7 @@
 From Coq Require Import List NArith Bool Lia.
 From AdltV Require Import Base.Res Base.MachInt Dlt.Frame Dlt.FrameProofs Dlt.Iter Dlt.IterProofs Dlt.IterTotal Dlt.Write Dlt.WriteProofs.
 From AdltV Require Import Dlt.WritePipeline Dlt.WritePipelineProofs.
+From AdltV Require Reader.LowMark Exec.C02 Dlt.WriteExecProofs.
 Import ListNotations.
 Open Scope N_scope.
 
@@ -136,6 +137,33 @@ Proof.
   repeat split; assumption.
 Qed.
 
+(* the reader wiring of convert.rs -- the iterator runs over LowMarkBufReader::new(file, 512 KiB, DLT_MAX_STORAGE_MSG_SIZE + 4),
+   whose fill_buf compacts the unconsumed bytes and refills (Reader/LowMark.v, the model C04 ties to the code) -- does not
+   change what is exported, whatever the file's size, the layout of its messages relative to the buffer, and the sizes of
+   the reads the file returns: the statements about convert_o hold for convert_o_rd *)
+Theorem C02_convert_reader_wiring (data : bytes) (sched : list N) :
+  wf_bytes data -> Reader.LowMark.nlen data <= usizemax -> convert_o_rd data sched = convert_o data.
+Proof. exact (convert_o_rd_eq data sched). Qed.
+
+(* a file in the writer's normal form (the writer's output for messages satisfying the invariant of parsed messages) is a
+   fixed point of the export: it re-reads to those messages and `convert -o` writes the file again, byte for byte *)
+Theorem C02_convert_normal_form_fixed_point (ms : list msg) :
+  Forall wf_msg ms -> N.of_nat (length ms) <= u32max ->
+  exists bytes ms' st,
+    write_all ms = Ok (WOk bytes) /\ run_iter 0 bytes = Ok (ms', st, []) /\ Forall2 same_fields ms ms' /\
+    convert_o bytes = Ok (WOk bytes).
+Proof.
+  intros Hwf Hn. destruct (convert_o_normal_form ms Hwf Hn) as (bytes & st & H1 & H2 & H3 & H4).
+  exists bytes, (reparsed_list 0 ms), st. repeat split; assumption.
+Qed.
+
+(* the evaluation shortcut of the correspondence shards for the large files of the export family (Exec/C02.v, CExportRuns)
+   yields what the full evaluation of the pipeline model yields *)
+Theorem C02_large_export_evaluation (ms : list msg) (inp : bytes) :
+  forallb wf_msgb ms = true -> N.of_nat (length ms) <= u32max -> write_all ms = Ok (WOk inp) ->
+  Exec.C02.export_obs_slow inp = Exec.C02.export_obs_fast ms inp.
+Proof. exact (Dlt.WriteExecProofs.export_obs_fast_sound ms inp). Qed.
+
 (* non-vacuity of the pipeline statements: one ECU; a lifecycle confirmed by its timestamp span (messages 0, 1), ONE message
    that looks like a new boot (2: tentative lifecycle 2, the message is queued), a late message with a large timestamp (3)
    that moves the tentative start back into lifecycle 1: merge into the published predecessor, queue flushed in front of
@@ -215,6 +243,9 @@ Print Assumptions C02_file_messages_parsed.
 Print Assumptions C02_file_export_roundtrip.
 Print Assumptions C02_lifecycle_stage_keeps_every_message_in_order.
 Print Assumptions C02_convert_export_roundtrip.
+Print Assumptions C02_convert_reader_wiring.
+Print Assumptions C02_convert_normal_form_fixed_point.
+Print Assumptions C02_large_export_evaluation.
 Print Assumptions C02_pipeline_nonvacuous.
 Print Assumptions C02_u16_be_roundtrip.
 Print Assumptions C02_u32_le_roundtrip.
